@@ -334,25 +334,4 @@ theorem witness_abort_on_parse_error :
       some ([0], [], true) := by
   decide
 
-/-! ### suspicion S2 (DESIGN §6) on the model: the first-request timer is not cleared when it fires
-
-`poll_head_timer` leaves `head_timer` `Active` after writing the 408, so every later poll whose
-prologue finds the (completed) `Sleep` ready again encodes another 408 while the shutdown is
-still pending.  Shown on the model only: the correspondence keeps timers inert (no clock control
-in the harness), so this is not reported as a finding on the code; it is the reason why
-`C03_silent_once_closing` carries the hypothesis `headTimer ≠ active`. -/
-
-def wS2Events : List Event :=
-  [.pollStart, .enter, .readPending, .start, .pollRequestEnter, .decodeOne, .pop, .tail,
-   .pollStart, .headTimerFired, .enter, .flushPending,
-   .pollStart, .headTimerFired]
-
-def count408 : List Out → Nat
-  | [] => 0
-  | .head none f :: rest => (if f.status == 408 then 1 else 0) + count408 rest
-  | _ :: rest => count408 rest
-
-theorem witness_second_408 : (run wCfg wS2Events).map (fun r => count408 r.2) = some 2 := by
-  decide
-
 end ActixModel.C02
